@@ -273,7 +273,13 @@ func vC13GenSession(r *vRng, thorough bool) vSx {
 			greet = append(greet, vC13MkData(r, r.pickInt(0, 5, 125, 126, 1000, 3000)))
 		}
 	}
-	cfg := vL(vBool(wellformed), vI(segC), vI(segS), vI(early), vLs(greet))
+	failAt := -1
+	if r.chance(1, 10) {
+		// transport fault injection: the writer's net.Conn fails its failAt-th write (0-based)
+		failAt = r.pickInt(0, 0, 1, 2, 3, r.intn(12))
+		wellformed = false
+	}
+	cfg := vL(vBool(wellformed), vI(segC), vI(segS), vI(early), vLs(greet), vI(failAt))
 	return vL(vZ(0), vI(srv), vI(B), vI(comp), vLs(pms), vLs(ops), vL(), cfg)
 }
 
